@@ -1,7 +1,7 @@
 from pyvc.contract import contract, class_model, EXTERNS, CLASSES
 
 B = "hed/schema/schema_io/schema2base.py"
-class_model("SchemaObj", {"library": "Str", "with_standard": "Str", "filename": "Opaque", "prologue": "Opaque", "epilogue": "Opaque",
+class_model("SchemaObj", {"library": "Str", "with_standard": "Str", "merged": "Bool", "filename": "Opaque", "prologue": "Opaque", "epilogue": "Opaque",
                           "tags": "Opaque", "unit_classes": "Opaque"})
 class_model("Schema2Base", {"_save_lib": "Bool", "_save_base": "Bool", "_strip_out_in_library": "Bool", "_save_merged": "Bool",
                             "_schema": "Opaque", "output": "Opaque"})
